@@ -77,8 +77,18 @@ class C10(core.Check):
                     ops.append(["shift", rng.randint(-8, 8)])
                 else:
                     j = rng.randrange(4)
-                    jit = [Fraction(rng.randint(-1, 1), 32) for _ in range(3)]
-                    ops.append(["reorient", j, [str(c + e) for c, e in zip(pts[j], jit)]])
+                    if rng.random() < 0.25:
+                        # a reference position very far away (relative tolerances must not decide the closest corner)
+                        while True:
+                            far = [Fraction(rng.randint(-9, 9) * 2 ** rng.randint(14, 22)) for _ in range(3)]
+                            q = [c + f for c, f in zip(pts[j], far)]
+                            d = sorted(sum((a - b) ** 2 for a, b in zip(p, q)) for p in pts)
+                            if d[0] > 0 and all((d[k + 1] - d[k]) > d[k] * Fraction(1, 10**9) for k in range(3)):
+                                break
+                        ops.append(["reorient", j, [str(c) for c in q]])
+                    else:
+                        jit = [Fraction(rng.randint(-1, 1), 32) for _ in range(3)]
+                        ops.append(["reorient", j, [str(c + e) for c, e in zip(pts[j], jit)]])
             cases.append({"kind": "face", "points": [[str(c) for c in p] for p in pts], "ops": ops})
         sides = list(BM_SIDE) + ["middle"]
         for _ in range(n):
@@ -98,8 +108,20 @@ class C10(core.Check):
                     else:
                         a, b = rng.randrange(8), rng.randrange(8)
                     calls.append(["pedge", a, b, lab])
-                else:
+                elif r < 0.88:
                     calls.append(["pcorner", rng.randrange(9) if rng.random() < 0.1 else rng.randrange(8), lab])
+                elif r < 0.93:
+                    # the same list object handed to several project_corner calls
+                    calls.append(["pcornerL", rng.randrange(8), rng.choice(["L1", "L2"]), None])
+                else:
+                    calls.append(["nface", rng.randrange(6)])
+                    if rng.random() < 0.7:
+                        calls.append(["nface", rng.randrange(6)])
+            # a shared list always carries the label it was created with
+            first = {}
+            for c in calls:
+                if c[0] == "pcornerL":
+                    c[3] = first.setdefault(c[2], rng.choice(["g1", "g2"]))
             cases.append({"kind": "addr", "calls": calls})
         if tier == "thorough":
             for s in sides:
@@ -150,9 +172,18 @@ class C10(core.Check):
         # addressing, observed on the assembled mesh
         hexa = [[0, 0, 0], [1, 0, 0], [1.1, 1, 0], [0, 1.2, 0], [0, 0, 1], [1, 0, 1.3], [1, 1, 1], [0, 1.1, 1.1]]
         op = cb.Loft(cb.Face(hexa[:4]), cb.Face(hexa[4:]))
+        shared = {}
+        facing = []
+        viewers = [[3, 0.4, 0.5], [-2, 0.5, 0.4], [0.5, 3, 0.5], [0.4, -2, 0.6], [0.5, 0.6, 3], [0.6, 0.4, -2]]
         try:
             for c in case["calls"]:
-                if c[0] == "patch":
+                if c[0] == "pcornerL":
+                    op.project_corner(c[1], shared.setdefault(c[2], [c[3]]))
+                elif c[0] == "nface":
+                    nf = op.get_normal_face(viewers[c[1]])
+                    cs = frozenset(min(range(8), key=lambda k: float(np.linalg.norm(np.array(hexa[k]) - p.position))) for p in nf.points)
+                    facing.append([c[1], next((sd for sd, q in BM_SIDE.items() if q == set(cs)), "none:" + "-".join(map(str, sorted(cs))))])
+                elif c[0] == "patch":
                     op.set_patch(c[1], c[2])
                 elif c[0] == "pside":
                     op.project_side(c[1], c[2], bool(c[3]), bool(c[4]))
@@ -185,6 +216,16 @@ class C10(core.Check):
             "C": [f"{i}:{l}" for i, l in cor],
             "n_edges": len(mesh.edge_list.edges),
             "K": ["+".join(sorted(op.get_patches_at_corner(c))) for c in range(8)],
+            "G": [
+                side + ":" + "-".join(str(min(range(8), key=lambda k: float(np.linalg.norm(np.array(hexa[k]) - p.position)))) for p in face.points)
+                for side, face in ((s_, op.get_face(s_)) for s_ in ("bottom", "top", "left", "right", "front", "back"))
+            ],
+            "G_all": [
+                side + ":" + "-".join(str(min(range(8), key=lambda k: float(np.linalg.norm(np.array(hexa[k]) - p.position)))) for p in face.points)
+                for side, face in op.get_all_faces().items()
+            ],
+            "facing": facing,
+            "shared_lists": {k: list(v) for k, v in shared.items()},
         }
 
     # ------------------------------------------------------------------ model
@@ -204,6 +245,7 @@ class C10(core.Check):
             return reqs
         return ["c10.addr " + ";".join(":".join(str(x) for x in c) for c in case["calls"])]
 
+
     def compare(self, case: dict, impl: Any, model: List[str]) -> Optional[str]:
         if case["kind"] == "face":
             for step, ans in zip(impl["trace"], model):
@@ -218,7 +260,7 @@ class C10(core.Check):
             return "model rejects, implementation accepts"
         import re
 
-        m = re.fullmatch(r"P\[(.*)\] F\[(.*)\] E\[(.*)\] C\[(.*)\] K\[(.*)\]", ans)
+        m = re.fullmatch(r"P\[(.*)\] F\[(.*)\] E\[(.*)\] C\[(.*)\] K\[(.*)\] G\[(.*)\]", ans)
         if not m:
             return "unparsable model answer " + ans
         got = {k: sorted(x for x in m.group(i + 1).split(";") if x) for i, k in enumerate("PFEC")}
@@ -230,6 +272,10 @@ class C10(core.Check):
         k_model = ["+".join(sorted(x for x in part.split("+") if x)) for part in m.group(5).split(";")]
         if k_model != impl["K"]:
             return f"patches at corners: implementation {impl['K']}, model {k_model}"
+        if m.group(6).split(";") != impl["G"]:
+            return f"faces by side name: implementation {impl['G']}, model {m.group(6)}"
+        if sorted(m.group(6).split(";")) != sorted(impl["G_all"]):
+            return f"get_all_faces: implementation {impl['G_all']}, model {m.group(6)}"
         return None
 
     # ------------------------------------------------------------------ oracle (property stated on the implementation)
@@ -275,7 +321,8 @@ class C10(core.Check):
             valid = all(
                 (c[0] in ("patch", "pside") and c[1] in BM_SIDE)
                 or (c[0] == "pedge" and {c[1], c[2]} in BM_EDGES)
-                or (c[0] == "pcorner" and 0 <= c[1] < 8)
+                or (c[0] in ("pcorner", "pcornerL") and 0 <= c[1] < 8)
+                or c[0] == "nface"
                 for c in case["calls"]
             )
             if valid:
@@ -303,11 +350,13 @@ class C10(core.Check):
                     out.append({"site": "Operation.project_edge:non-edge-accepted", "what": str(c)})
                     return out
                 exp_e.setdefault(frozenset((c[1], c[2])), set()).add(c[3])
+            elif c[0] == "nface":
+                pass
             else:
                 if not 0 <= c[1] < 8:
                     out.append({"site": "Operation.project_corner:invalid-corner-accepted", "what": str(c)})
                     return out
-                exp_c.setdefault(c[1], set()).add(c[2])
+                exp_c.setdefault(c[1], set()).add(c[3] if c[0] == "pcornerL" else c[2])
         got_p = {}
         for x in impl["P"]:
             name, quad = x.split(":")
@@ -320,6 +369,19 @@ class C10(core.Check):
         got_e = {frozenset(map(int, x.split(":")[0].split("-"))): set(x.split(":")[1].split("+")) for x in impl["E"]}
         if got_e != exp_e:
             out.append({"site": "Operation.project_edge:wrong-edge", "what": f"{case['calls']} -> {impl['E']}"})
+        want_side = ["right", "left", "back", "front", "top", "bottom"]
+        for k, side in impl["facing"]:
+            if side != want_side[k]:
+                out.append({"site": "Operation.get_normal_face:not-the-side-facing-the-viewer", "what": f"{case['calls']}: viewer {k} got {side}"})
+                break
+        for g in impl["G"] + impl["G_all"]:
+            side, quad = g.split(":")
+            if set(map(int, quad.split("-"))) != BM_SIDE[side] or len(set(quad.split("-"))) != 4:
+                out.append({"site": "Operation.get_face:wrong-corners", "what": f"{case['calls']}: get_face({side}) has corners {quad}"})
+                break
+        for k, v in impl["shared_lists"].items():
+            if len(v) != 1:
+                out.append({"site": "Operation.project_corner:callers-list-modified", "what": f"{case['calls']}: list {k} is now {v}"})
         for c in range(8):
             want = sorted({n for s_, n in exp_p.items() if c in BM_SIDE[s_]})
             if sorted(x for x in impl["K"][c].split("+") if x) != want:
